@@ -48,18 +48,43 @@ def load():
     return fns
 
 
+# Abstract value per child: the set of *bags of render sites* that can be executed on one path
+# (a bag is a sorted tuple of site labels).  Sequence = pairwise union of bags, branch = union of the
+# sets.  A bag with more than one site is a path that renders the child more than once; naming the
+# sites (not just counting) lets a *new* double render be told from one that is already recorded.
+NONE = frozenset({()})
+
+
+def _cap(bags):
+    out = set()
+    for b in bags:
+        out.add(tuple(sorted(b))[:4])
+        if len(out) >= 48:
+            break
+    return frozenset(out)
+
+
 def add(a, b):
     out = dict(a)
     for k, v in b.items():
-        out[k] = out.get(k, 0) + v
+        cur = out.get(k, NONE)
+        out[k] = _cap({x + y for x in cur for y in v})
     return out
 
 
 def mx(a, b):
-    out = dict(a)
-    for k, v in b.items():
-        out[k] = max(out.get(k, 0), v)
+    out = {}
+    for k in set(a) | set(b):
+        out[k] = _cap(set(a.get(k, NONE)) | set(b.get(k, NONE)))
     return out
+
+
+def one(label, times=1):
+    return frozenset({(label,) * times})
+
+
+def worst(bags):
+    return max((len(b) for b in bags), default=0)
 
 
 class Counter:
@@ -68,6 +93,11 @@ class Counter:
         self.by_name = by_name
         self.alias: dict[str, str | None] = {}
         self.loopvars: dict[str, str] = {}
+        self.sites: dict[str, list] = {}
+        # pre-number repeated site texts in source order
+        calls = [n for n in ast.walk(fn.node) if isinstance(n, ast.Call)]
+        for n in sorted(calls, key=lambda c: (c.lineno, c.col_offset)):
+            self.site(n)
 
     def origin(self, e):
         """Which child of self / which parameter an expression derives from (None = not a child)."""
@@ -114,7 +144,7 @@ class Counter:
             if isinstance(f, ast.Attribute) and f.attr in RENDER:
                 o = self.origin(f.value)
                 if o:
-                    total = add(total, {o: 1})
+                    total = add(total, {o: one(self.site(n))})
                 continue
             name = f.id if isinstance(f, ast.Name) else (f.attr if isinstance(f, ast.Attribute) else None)
             for cand in self.by_name.get(name, []):
@@ -125,23 +155,38 @@ class Counter:
                 for i, a in enumerate(n.args):
                     if i < len(params) and cand.summary.get(params[i]):
                         o = self.origin(a)
-                        if o:
-                            contrib = mx(contrib, {o: cand.summary[params[i]]})
+                        if o == "self" or (isinstance(a, ast.Name) and a.id == "self"):
+                            # the helper receives the node itself: its renders of `param.child` are renders of `self.child`
+                            for pk, pv in cand.summary.items():
+                                if pk.startswith("path:" + params[i] + "."):
+                                    contrib = mx(contrib, {"self." + pk[len("path:" + params[i] + "."):]: one(self.site(n), pv)})
+                        elif o:
+                            contrib = mx(contrib, {o: one(self.site(n), cand.summary[params[i]])})
                 for kw in n.keywords:
                     if kw.arg and cand.summary.get(kw.arg):
                         o = self.origin(kw.value)
                         if o:
-                            contrib = mx(contrib, {o: cand.summary[kw.arg]})
+                            contrib = mx(contrib, {o: one(self.site(n), cand.summary[kw.arg])})
                 if isinstance(f, ast.Attribute) and cand.cls and cand.summary.get("self"):
                     o = self.origin(f.value)
                     if o:
-                        contrib = mx(contrib, {o: cand.summary["self"]})
+                        contrib = mx(contrib, {o: one(self.site(n), cand.summary["self"])})
                 total = add(total, contrib)
                 break
         return total
 
-    def comp_scale(self, e, counts):
-        return counts
+    def site(self, call):
+        """Label of a render site: its source text (stable under unrelated edits), numbered when repeated."""
+        text = " ".join(ast.unparse(call).split())
+        if len(text) > 70:
+            text = text[:67] + "..."
+        key = (call.lineno, call.col_offset)
+        seen = self.sites.setdefault(text, [])
+        if key not in seen:
+            seen.append(key)
+            seen.sort()
+        k = seen.index(key)
+        return text if k == 0 else f"{text} (occurrence {k + 1})"
 
     def block(self, stmts):
         """(counts on the paths that fall through, max counts over the paths that returned)"""
@@ -166,8 +211,7 @@ class Counter:
                 for k, v in alias_b.items():
                     self.alias.setdefault(k, v)
                 base = add(cur, t)
-                returned = mx(returned, mx({k: base.get(k, 0) + v for k, v in b_ret.items()} | {k: v for k, v in base.items() if b_ret and k not in b_ret},
-                                           {k: base.get(k, 0) + v for k, v in o_ret.items()} | {k: v for k, v in base.items() if o_ret and k not in o_ret}))
+                returned = mx(returned, mx(add(base, b_ret) if b_ret else {}, add(base, o_ret) if o_ret else {}))
                 if b_ft is None and o_ft is None:
                     return None, returned
                 ft = {}
@@ -189,13 +233,13 @@ class Counter:
                 b_ft, b_ret = self.block(st.body)
                 body = mx(b_ft or {}, b_ret)
                 # rendering something that is *not* the per-iteration element inside a loop repeats it
-                scaled = {k: (v if k.endswith("[each]") or "[each]" in k else v * 2) for k, v in body.items()}
+                scaled = {k: (v if k.endswith("[each]") or "[each]" in k else _cap({b + b for b in v})) for k, v in body.items()}
                 self.alias = saved
                 cur = add(add(cur, head), scaled)
                 continue
             if isinstance(st, ast.Try):
                 b_ft, b_ret = self.block(st.body)
-                returned = mx(returned, {k: cur.get(k, 0) + v for k, v in b_ret.items()})
+                returned = mx(returned, add(cur, b_ret) if b_ret else {})
                 hmax = {}
                 for h in st.handlers:
                     h_ft, h_ret = self.block(h.body)
@@ -204,7 +248,7 @@ class Counter:
                 continue
             if isinstance(st, ast.With):
                 b_ft, b_ret = self.block(st.body)
-                returned = mx(returned, {k: cur.get(k, 0) + v for k, v in b_ret.items()})
+                returned = mx(returned, add(cur, b_ret) if b_ret else {})
                 cur = add(cur, b_ft or {})
                 continue
             if isinstance(st, (ast.FunctionDef, ast.ClassDef, ast.Import, ast.ImportFrom, ast.Pass, ast.Nonlocal, ast.Global)):
@@ -249,9 +293,11 @@ def run(tier="quick"):
             for k, v in counts.items():
                 root = k.split(".")[0].split("[")[0]
                 if root in fn.params:
-                    summ[root] = max(summ.get(root, 0), v)
+                    summ[root] = max(summ.get(root, 0), worst(v))
+                    if root != "self" and "." in k and "[" not in k:
+                        summ["path:" + k] = max(summ.get("path:" + k, 0), worst(v))
                 if k.startswith("self.") and fn.cls:
-                    summ["self:" + k] = v
+                    summ["self:" + k] = worst(v)
             if summ != fn.summary:
                 fn.summary = summ
                 changed = True
@@ -272,22 +318,24 @@ def run(tier="quick"):
                 for cand in by_name.get(n.func.attr, []):
                     if cand.cls == fn.cls and cand is not fn:
                         for k, v in cand.summary.items():
-                            if k.startswith("self:"):
-                                counts[k[5:]] = counts.get(k[5:], 0) + v
+                            if k.startswith("self:") and v:
+                                counts = add(counts, {k[5:]: one(f"self.{n.func.attr}(...)", v)})
         per_child = {k: v for k, v in counts.items() if k.startswith("self.")}
         n_ob = 0
         n_ok = 0
-        for child, v in sorted(per_child.items()):
+        for child, bags in sorted(per_child.items()):
             obligations += 1
             n_ob += 1
-            if v <= 1:
+            multi = sorted({b for b in bags if len(b) > 1})
+            if not multi:
                 discharged += 1
                 n_ok += 1
-            else:
-                name = f"cost[{fn.cls}.{last}: {child}]"
+            for b in multi:
+                name = f"cost[{fn.cls}.{last}: {child}: " + " + ".join(b) + "]"
                 violations.append(dict(obligation=name, check="cost", has_input=False,
-                                       what=f"C20 cost obligation refuted: {rel}::{q} renders child `{child}` up to {v} times on one path "
-                                            f"(nesting this construct in itself makes rebuild() calls grow exponentially)"))
+                                       what=f"C20 cost obligation refuted: {rel}::{q} renders child `{child}` {len(b)} times on one path, at "
+                                            + " and ".join(f"`{x}`" for x in b)
+                                            + " (nesting this construct in itself makes rebuild() calls grow exponentially)"))
         functions.append(dict(function=f"{rel}::{q}", contract="ghost calls[child] <= 1 per path", status="ok", obligations=n_ob, discharged=n_ok))
     return dict(name="cost", obligations=obligations, discharged=discharged, violations=violations, functions=functions,
                 assumptions=["cost analysis: origin tracking through assignment, model_copy, coerce_expression, _clone_with_trivia and helper "
